@@ -26,6 +26,7 @@ type intrinsicState struct {
 	crashBudget int
 	crashesUsed int
 	midFlush    bool
+	crashCalls  map[string]int
 }
 
 func boolArgs(v value) []*Term {
@@ -177,6 +178,51 @@ func addIntrinsics(P *Program) {
 		i.gomaxprocs = args[0]
 		return nil
 	})
+	// UntilCrash runs f as "the process"; if a crash point fires inside, every thread the
+	// process started is gone and UntilCrash returns true.
+	reg("UntilCrash", func(i *interpreter, fr *frame, fn *ssa.Function, args []value) (res value) {
+		savedOwner, savedBase := i.crashOwner, i.crashBase
+		i.crashOwner, i.crashBase = i.cur, len(i.threads)
+		defer func() {
+			p := recover()
+			if p != nil {
+				if _, ok := p.(processCrash); ok {
+					// crash in this very thread, or handed over by a dying child thread
+					i.killProcessThreads()
+					i.cur.waitFor = nil
+					i.crashOwner, i.crashBase = savedOwner, savedBase
+					res = true
+					return
+				}
+				i.crashOwner, i.crashBase = savedOwner, savedBase
+				panic(p)
+			}
+			i.crashOwner, i.crashBase = savedOwner, savedBase
+		}()
+		call(i, fr, 0, args[0], nil)
+		return false
+	})
+	reg("CrashPoint", func(i *interpreter, fr *frame, fn *ssa.Function, args []value) value {
+		i.crashPoint(goString(args[0], "crash site"))
+		return nil
+	})
+	reg("SetCrashes", func(i *interpreter, fr *frame, fn *ssa.Function, args []value) value {
+		i.crashBudget = i.crashesUsed + int(asInt64(args[0]))
+		i.crashOn = asInt64(args[0]) > 0
+		return nil
+	})
+	reg("ModelAllOpensSynced", func(i *interpreter, fr *frame, fn *ssa.Function, args []value) value {
+		l := i.blog()
+		if len(l.opens) == 0 {
+			return false
+		}
+		for _, s := range l.opens {
+			if !s {
+				return false
+			}
+		}
+		return true
+	})
 	reg("Settle", func(i *interpreter, fr *frame, fn *ssa.Function, args []value) value { return nil })
 	reg("Symbolic", func(i *interpreter, fr *frame, fn *ssa.Function, args []value) value { return true })
 	// Try runs f and reports whether it panicked (target panics only).
@@ -199,6 +245,10 @@ func addIntrinsics(P *Program) {
 	})
 	reg("Sequential", func(i *interpreter, fr *frame, fn *ssa.Function, args []value) value {
 		i.explore = false
+		return nil
+	})
+	reg("DeferGoroutines", func(i *interpreter, fr *frame, fn *ssa.Function, args []value) value {
+		i.deferSpawn = args[0].(bool)
 		return nil
 	})
 	reg("SelectFork", func(i *interpreter, fr *frame, fn *ssa.Function, args []value) value {
